@@ -73,11 +73,21 @@ def rule_field_own(ctx, prog, adt, field, writers, rule="R11", constructors=None
                % (adt.split("::")[-1], field, {"assign": "assigned", "borrow-mut": "mutably borrowed", "move-out": "moved out"}[kind],
                   b.key, writers), what="invariant field written outside its owner")
     if constructors is not None:
+        # a constructor that establishes nothing (no call at all: it only moves its parameter into the field) may be
+        # bypassed by a struct literal elsewhere in the module without weakening any invariant
+        trivial = False
+        cbodies = [b for b in prog.bodies.values() if any(b.key.endswith(c) for c in constructors) and not b.is_closure]
+        if cbodies and all(not list(cb.calls()) and not any(cb.term(x)["k"] == "switch" for x in cb.live_blocks()) for cb in cbodies):
+            trivial = True
         for (b, bb, si) in aggregates_of(prog, adt):
             if is_derive(b):
                 continue
             n += 1
             ok = any(b.key.endswith(c) for c in constructors)
+            if not ok and trivial:
+                ctx.ob(rule, "%s/constructed-in/%s" % (adt.split("::")[-1], short(b.key)), True, b.where(bb, si),
+                       "struct literal outside the constructor, which itself establishes no invariant (it only stores its argument)")
+                continue
             ctx.ob(rule, "%s/constructed-in/%s" % (adt.split("::")[-1], short(b.key)), ok, b.where(bb, si),
                    "constructed by its audited constructor" if ok else
                    "`%s` is constructed in `%s`, bypassing the constructor that establishes its invariant" % (adt, b.key),
@@ -220,6 +230,12 @@ def rule_bins_len(ctx, prog, rule="R13"):
     sw = [bb for bb in b.live_blocks() if b.term(bb)["k"] == "switch"]
     ok = False
     detail = "no switch on the number of edges"
+    r0 = strip(b.return_expr()) if not sw else None
+    if isinstance(r0, tuple) and r0[0] == "call" and r0[1] == "saturating_sub" and len(r0[3]) == 2:
+        n_ = strip(r0[3][0])
+        ok = isinstance(n_, tuple) and n_[0] == "call" and n_[1] == "len" and strip(n_[3][0]) == ("field", ("param", 1, "self"), "edges") \
+            and strip(r0[3][1]) == ("const", "usize", 1)
+        detail = "= edges.len().saturating_sub(1): 0 edges → 0 bins, n edges → n − 1 bins" if ok else "Bins::len is `%s`" % fmt(r0)
     if sw:
         bb = sw[0]
         de = strip(b.switch_discr_expr(bb))
